@@ -360,3 +360,43 @@ Proof.
   - cbn. lia.
   - cbn. intros j Hj. decompose [or] Hj; subst; try contradiction; lia.
 Qed.
+
+(** ** sequences of queries on ONE object (the cached start vertex is threaded through):
+       the k-th answer is a support point up to [delta] whatever was asked before *)
+Theorem mesh_queries_partial : forall fuel (T : Pose R) vs conn shortcuts ds first_idx k (d : V3R) idx p delta,
+  nth_error (mesh_queries fuel T vs conn shortcuts first_idx ds) k = Some (Some (idx, p)) ->
+  nth_error ds k = Some d ->
+  LocalMaxGlobal (mulTV (rot T) d) vs conn delta ->
+  hull_set T vs p /\ forall x, hull_set T vs x -> dot x d <= dot p d + delta.
+Proof.
+  intros fuel T vs conn shortcuts. induction ds as [|d0 ds IH]; intros first_idx k d idx p delta H Hd HL.
+  - destruct k; discriminate.
+  - cbn [mesh_queries] in H.
+    destruct (mesh_query fuel T vs conn shortcuts first_idx d0) as [[i0 p0]|] eqn:E0.
+    + destruct k as [|k]; cbn [nth_error] in H, Hd.
+      * injection H as -> ->. injection Hd as ->.
+        eapply mesh_support_partial; eauto.
+      * eapply IH; eauto.
+    + destruct k as [|[|k]]; cbn [nth_error] in H; discriminate.
+Qed.
+
+(** the sequence never stops early on a closed mesh: one answer per query *)
+Theorem mesh_queries_total (T : Pose R) vs conn shortcuts : forall ds first_idx,
+  conn_closed vs conn -> (first_idx < length vs)%nat ->
+  (forall j, In j shortcuts -> (j < length vs)%nat) ->
+  length (mesh_queries (S (length vs)) T vs conn shortcuts first_idx ds) = length ds /\
+  Forall (fun o => o <> None) (mesh_queries (S (length vs)) T vs conn shortcuts first_idx ds).
+Proof.
+  induction ds as [|d ds IH]; intros first_idx Hc Hv Hs; cbn [mesh_queries].
+  - split; [reflexivity|constructor].
+  - destruct (mesh_query_total T vs conn shortcuts first_idx d Hc Hv Hs) as (idx & p & E).
+    rewrite E.
+    assert (Hi : (idx < length vs)%nat).
+    { unfold mesh_query in E.
+      destruct (hill_climb (S (length vs)) (mulTV (rot T) d) first_idx vs conn shortcuts) as [i| | |]; try discriminate.
+      destruct (nth_error vs i) as [v|] eqn:Ev; [|discriminate]. injection E as <- _.
+      apply nth_error_Some. congruence. }
+    destruct (IH idx Hc Hi Hs) as [Hl Hf]. split.
+    + cbn [length]. rewrite Hl. reflexivity.
+    + constructor; [discriminate|auto].
+Qed.
